@@ -12,7 +12,7 @@ RULE = ('SDML and SDML_Supervised on generated labelled pairs (d in 2..6) x prio
         'the harness forms S itself, solves the problem with its own ADMM solver, compares objective values and checks the '
         'sub-gradient (KKT) conditions.  Non-trivial = loss matrix indefinite and the reference optimum has both zero and '
         'non-zero off-diagonal entries (sparsity active); distinct by canonical case.')
-ASSUMPTIONS = ['objective gap tolerance 5e-4 max(1,|g*|) (scikit-learn stops on a 1e-4 duality gap); KKT slack 5e-3 relative',
+ASSUMPTIONS = ['objective gap tolerance 5e-4 max(1,|g*|) (scikit-learn stops on a 1e-4 duality gap); KKT slack 2e-2 relative to max(|S|, sparsity) (7e-3 was observed on the unchanged tree: scikit-learn stops on the duality gap, not on the KKT residual)',
                'cases where scikit-learn warns about non-convergence, or where the reference solver did not converge, are inconclusive',
                'beyond the PD margin the only admissible outcomes are RuntimeError or a finite PSD matrix']
 NAMES = ['SDML', 'SDML_Supervised']
@@ -97,14 +97,14 @@ def check_c13(case, stats):
   # sub-gradient certificate
   W = np.linalg.inv(M)
   sc = max(np.abs(S).max(), lam)
-  if np.abs(np.diag(W) - np.diag(S)).max() > 5e-3 * sc:
+  if np.abs(np.diag(W) - np.diag(S)).max() > 2e-2 * sc:
     raise Violation('C13/kkt-diagonal/' + tag, 'max |(M^-1)_ii - S_ii| = %g (scale %g)' % (np.abs(np.diag(W) - np.diag(S)).max(), sc))
   R = W - S
   off = ~np.eye(d, dtype=bool)
-  if (np.abs(R[off]) > lam + 5e-3 * sc).any():
+  if (np.abs(R[off]) > lam + 2e-2 * sc).any():
     raise Violation('C13/kkt-offdiagonal-bound/' + tag, 'max |(M^-1 - S)_ij| = %g > sparsity %g' % (np.abs(R[off]).max(), lam))
   nz = off & (np.abs(M) > 1e-6 * np.abs(M).max())
-  if nz.any() and np.abs(R[nz] - lam * np.sign(M[nz])).max() > 5e-3 * sc + 0.05 * lam:
+  if nz.any() and np.abs(R[nz] - lam * np.sign(M[nz])).max() > 2e-2 * sc + 0.05 * lam:
     raise Violation('C13/kkt-offdiagonal-sign/' + tag, 'non-zero entries: max |(M^-1 - S)_ij - sparsity*sign(M_ij)| = %g'
                     % np.abs(R[nz] - lam * np.sign(M[nz])).max())
   zeros = int((np.abs(Mref[off]) == 0).sum())
